@@ -129,7 +129,7 @@ def run(tier, seed):
     add_proof_failures(rep, po)
     # C01b / C01c: the per-enumerator normal form is the same decoder (expand_decode); what `progeq = same` means for the translated
     # Rust reader (reader_decodes_as_spec, reader_reads_canonical)
-    for mod_ in ("WowVerif.Thm.C01b", "WowVerif.Thm.C01c", "WowVerif.Thm.C01d", "WowVerif.Thm.C07b"):
+    for mod_ in ("WowVerif.Thm.C01b", "WowVerif.Thm.C01c", "WowVerif.Thm.C01d", "WowVerif.Thm.C01e", "WowVerif.Thm.C07b"):
         po_b = proof_obligations(mod_)
         add_proof_failures(rep, po_b)
         po = dict(po, theorems=dict(po["theorems"], **po_b["theorems"]), obligations=po["obligations"] + po_b["obligations"], discharged=po["discharged"] + po_b["discharged"])
@@ -382,6 +382,33 @@ def run(tier, seed):
                 fr = frame(libname(c), dr, c["opcode"], body)
                 zreq.append(f"codec {libname(c)} {dr} {fr.hex()}")
                 zmeta.append((c, dr, fr))
+    # … and compressed BODIES whose payload comes from the Lean model (Thm/C01e.lean zbody_roundtrip: the inner container's encoding behind a u32 size, for
+    # any compressor with decomp (comp p) = p): the inner containers are loaded as `Z|key`, their canonical encodings generated by the semantics
+    # (update masks, splines included), compressed here and framed
+    zin = [c for c in conts if "zmsg_tokens" in c]
+    n_zlean = 0
+    if zin:
+        zpath = os.path.join(CACHE, "zinner.txt")
+        with open(zpath, "w") as f_:
+            for c in zin:
+                f_.write(f"container Z|{c['key']} {c['opcode']} {' '.join(c['zmsg_tokens'])}\n")
+        dz = Driver()
+        dz.ask(f"load {zpath}")
+        zl_req = [(c, f"gen Z|{c['key']} {prng.below(1 << 40)} {(0, 1, 2, 3, 5, 9)[k % 6]}") for c in zin for k in range(12 if tier == "quick" else 200)]
+        zl_out = dz.ask_many([q for _, q in zl_req])
+        dz.close()
+        for (c, q), o in zip(zl_req, zl_out):
+            if not o.startswith("ok"):
+                continue
+            pay = bytes.fromhex(o.split()[1]) if len(o.split()) > 1 and o.split()[1] != "-" else b""
+            if not pay:
+                continue          # the empty payload is the known finding C01/compressed/empty-payload (probed by the reference stream above)
+            body = len(pay).to_bytes(4, "little") + zlib.compress(pay)
+            for dr in directions(c):
+                fr = frame(libname(c), dr, c["opcode"], body)
+                zreq.append(f"codec {libname(c)} {dr} {fr.hex()}")
+                zmeta.append((c, dr, fr))
+                n_zlean += 1
     zo = run_parallel(har, zreq, jobs=12) if zreq else []
     n_zok = 0
     for (c, dr, fr), rq, h in zip(zmeta, zreq, zo):
@@ -417,7 +444,7 @@ def run(tier, seed):
         "reader_tie": tie_cov, "manual_codecs_compared": len(manual), "manual_codecs_equal": sum(1 for it in manual if not it["differences"]),
         "containers_total": len(conts), "containers_exercised": covered,
         "containers_outside_model": {"compressed (translator)": len(uns), **{f"built-in {k}": v for k, v in uns_kinds.items()}},
-        "evaluations": len(hreq) + len(zreq), "distinct_nontrivial": len(distinct), "frames_ok": n_ok, "boundary_length_frames": n_boundary, "compressed_stream": {"frames": len(zreq), "ok": n_zok, "large_payloads": n_zbig}, "dictionary_stream": {"values_login": len(pool_login), "values_world": len(pool_world), "frames": len(dreq_), "identical": n_dict_ok},
+        "evaluations": len(hreq) + len(zreq), "distinct_nontrivial": len(distinct), "frames_ok": n_ok, "boundary_length_frames": n_boundary, "compressed_stream": {"frames": len(zreq), "ok": n_zok, "large_payloads": n_zbig, "bodies_generated_by_the_lean_model": n_zlean}, "dictionary_stream": {"values_login": len(pool_login), "values_world": len(pool_world), "frames": len(dreq_), "identical": n_dict_ok},
         "builtin_type_stream": {"frames": n_prim_frames, "reference_encoder_cross_checked_against_lean": n_x, "builtins_without_payload_generator": dict(prim_unsupported)},
         "rule": f"per version-expanded message: directed samples in which every steering variable cycles through every value it is compared with (and one it is not) / every single flag mask, none, all — so every if / else-if / else arm is taken — plus {ns} random samples (arrays 0..4 or 0..9 elements); both directions for msg; distinct = distinct (container, direction, frame)",
         "samples": [{"request": hreq[i][:200], "implementation": ho[i][:200]} for i in (0, len(hreq) // 2, len(hreq) - 1)],
